@@ -1,0 +1,17 @@
+//go:build verif
+
+package ocsp
+
+import (
+	"time"
+
+	"golang.org/x/crypto/ocsp"
+)
+
+// Verification-only accessors (build tag verif).
+
+func (c *OCSPRevocationChecker) VerifCalculateEvictionTime(response *ocsp.Response) time.Duration {
+	return c.calculateEvictionTime(response)
+}
+
+const VerifMaxClockSkew = maxClockSkew
